@@ -54,7 +54,7 @@ def run(ctx):
     ctx.rule = ('(a) PIT: grammar architectures (1-D causal and 2-D; conv/depthwise/residual/concat/pool/flatten/linear heads) x all applicable built-in specs as a dictionary '
                 '+ one single specification; trainable mask parameters seeded with dyadic values (styles rand / with exact zeros / small / big); per network: value, autograd '
                 'gradient of every trainable element, +1 magnitude bump of every element, weight perturbation, other input batch + eval mode, one raised and one lowered '
-                'parameter vector, all masks +-1, the metrics re-read in two other orders; (a2) the same with full_cost=True and 1-2 cost-bearing layers excluded by name (costed with their static sizes), one single-specification wrapper per metric; (b) fixed SuperNet (S0, S1) / MPS (M0, M1; per-layer and per-channel) / ODiMO_MPS (defaults) models with seeded coefficients; value and gradients again after forward -> export() / summary() / get_cost / export()+summary() without a forward in between. '
+                'parameter vector, all masks +-1, the cost specification re-assigned (same dict, dict -> single -> dict, single wrappers) while the masks are away from 1 and compared with a fresh wrapper carrying identical masks and, re-opened, with the original model, the metrics re-read in two other orders; (a2) the same with full_cost=True and 1-2 cost-bearing layers excluded by name (costed with their static sizes), one single-specification wrapper per metric; (b) fixed SuperNet (S0, S1) / MPS (M0, M1; per-layer and per-channel) / ODiMO_MPS (defaults) models with seeded coefficients; value and gradients again after forward -> export() / summary() / get_cost / export()+summary() without a forward in between; MPS (hard_softmax=True and eval()) / ODiMO (eval()) with one-hot sampled coefficients, seeded and extreme (a precision chosen by no channel): finite cost and gradients for every spec. '
                 'non-trivial = at least one searchable layer and one trainable non keep-alive parameter element; distinct = distinct (architecture, parameter values) / (model, seed)')
     from concurrent.futures import ProcessPoolExecutor
     import multiprocessing as mp
